@@ -24,9 +24,11 @@ import copy
 import math
 import re
 import warnings
-from collections import Counter
+from collections import ChainMap, Counter, UserDict, UserList
+from collections.abc import Mapping, Sequence
 from decimal import Decimal
 from fractions import Fraction
+from types import MappingProxyType
 from typing import Any, Callable
 
 from . import common as C
@@ -127,15 +129,75 @@ def c_case(model: str, o: tuple, via_render: bool) -> str:
 
 
 def canon(v: Any) -> Any:
-    if isinstance(v, tuple):
-        return [canon(x) for x in v]
-    if isinstance(v, list):
-        return [canon(x) for x in v]
-    if isinstance(v, dict):
+    """Plain data: every Mapping a dict, every non-string Sequence (tuple, range, UserList ...) a list."""
+    if isinstance(v, str):
+        return v if type(v) is str else str(v)
+    if isinstance(v, Mapping):
         return {k: canon(x) for k, x in v.items()}
-    if isinstance(v, str) and type(v) is not str:
-        return str(v)
+    if isinstance(v, Sequence):
+        return [canon(x) for x in v]
     return v
+
+
+class HMap(Mapping):                      # a user Mapping that is not a dict
+    def __init__(self, d: dict) -> None:
+        self._d = d
+
+    def __getitem__(self, k: Any) -> Any:
+        return self._d[k]
+
+    def __iter__(self) -> Any:
+        return iter(self._d)
+
+    def __len__(self) -> int:
+        return len(self._d)
+
+    def __repr__(self) -> str:
+        return f"HMap({self._d!r})"
+
+
+class HSeq(Sequence):                     # a user Sequence that is not a list
+    def __init__(self, l: list) -> None:
+        self._l = list(l)
+
+    def __getitem__(self, i: Any) -> Any:
+        return HSeq(self._l[i]) if isinstance(i, slice) else self._l[i]
+
+    def __len__(self) -> int:
+        return len(self._l)
+
+    def __repr__(self) -> str:
+        return f"HSeq({self._l!r})"
+
+
+MAP_KINDS: dict[str, Callable[[dict], Any]] = {
+    "mappingproxy": MappingProxyType, "chainmap": ChainMap, "userdict": UserDict, "mapping": HMap}
+SEQ_KINDS = ["tuple", "userlist", "sequence", "range", "list"]
+
+
+def embed(left: Any, mk: str, sk: str) -> Any:
+    """The same hash / array as other Python types: hashes (the left value, or the
+    items of the array at any nesting) as non-dict Mappings, the array as a non-list Sequence,
+    nested arrays as tuples (the only other type _flatten flattens)."""
+    def item(v: Any) -> Any:
+        if isinstance(v, dict):
+            return MAP_KINDS[mk](v)
+        if isinstance(v, list):
+            return tuple(item(x) for x in v)
+        return v
+    if isinstance(left, dict):
+        return MAP_KINDS[mk](left)
+    if isinstance(left, list):
+        if sk == "range" and left and all(type(x) is int for x in left) and \
+                left == list(range(left[0], left[0] + len(left))):
+            return range(left[0], left[0] + len(left))
+        its = [item(v) for v in left]
+        return {"tuple": tuple, "userlist": UserList, "sequence": HSeq}.get(sk, list)(its)
+    return left
+
+
+def has_containers(v: Any) -> bool:
+    return isinstance(v, (dict, list))
 
 
 def classify_exc(e: BaseException) -> tuple:
@@ -711,6 +773,29 @@ def gen_cases(g: Gen, tier: str) -> list[dict[str, Any]]:
             for name in ("modulo", "plus", "minus", "times", "at_least", "at_most"):
                 add("num", name, a_, (b_,))
 
+    # a single hash / an array of hashes / a run of ints as the left value of every array filter,
+    # in the plain, string-key and arrow-function forms (the embedding pass reruns them as
+    # non-dict Mappings and non-list Sequences)
+    one = {"title": "x", "price": 3, "k": 2, "n": None}
+    shop = [{"title": "a", "price": 1, "k": 1}, {"title": "b", "k": 2}, {"title": "a", "price": 2.5, "k": 1}, {}]
+    run = [3, 4, 5, 6]
+    for left in (one, shop, run, [one], [[one], [shop[0], [run]]]):
+        for name in ("map", "sum", "uniq", "compact", "sort", "sort_natural", "sort_numeric"):
+            for k_ in ("title", "price", "k"):
+                add("seq", name, left, (k_,))
+                add("seq", name, left, (), (k_, False, None))
+            if name != "map":
+                add("seq", name, left, ())
+        for name in ("where", "reject", "find", "find_index", "has"):
+            for k_, v_ in (("title", "a"), ("title", "x"), ("k", 2), ("price", None), ("n", None)):
+                add("seq", name, left, (k_,) if v_ is None else (k_, v_))
+                add("seq", name, left, (), (k_, v_ is not None, v_))
+        for name in ("first", "last", "reverse", "join"):
+            add("seq", name, left, ())
+        add("seq", "concat", left, ([9, [8]],))
+        add("seq", "slice", left, (1, 2))
+        add("seq", "slice", left, (-2, 5))
+
     # decimal arithmetic on floats goes through their shortest repr: 0.1 + 0.2 is 0.3
     for xs in ([0.1, 0.2], [0.1, 0.2, 0.7], [1.1, 2.675, -0.3], [1e-07, 0.2, 3], ["0.1", 0.2, 1], [0.1] * 10,
                [-0.1, -0.2, 0.3], [33.33, 1.005, 1e-05, -2.675], [0.7, 0.1, "x", None, True, [0.2]]):
@@ -1222,6 +1307,42 @@ class Laws:
         self.expect("uniq-by-equality", len(gotp) == len(wantp) and all(a is b for a, b in zip(gotp, wantp)),
                     "uniq does not keep the first of each ==-class of hashes", **rp, got=gotp, want=wantp)
 
+    def embedding_laws(self, left: Any, key: str, value: Any) -> None:
+        """A hash is a hash whatever Mapping it is, an array whatever Sequence: every array filter,
+        in its three forms, gives the same outcome on the same data embedded as other types."""
+        if not has_containers(left):
+            return
+        calls: list[tuple[str, tuple, tuple | None]] = []
+        for name in ("map", "sum", "uniq", "compact", "sort", "sort_natural", "sort_numeric"):
+            calls += [(name, (key,), None), (name, (), (key, False))]
+            if name != "map":
+                calls.append((name, (), None))
+        for name in ("where", "reject", "find", "find_index", "has"):
+            calls += [(name, (key,), None), (name, (key, value), None), (name, (), (key, False)),
+                      (name, (), (key, True))]
+        calls += [("first", (), None), ("last", (), None), ("reverse", (), None), ("concat", ([1, [2]],), None),
+                  ("slice", (1, 2), None), ("slice", (-1, 3), None)]
+
+        def outcome(x: Any, name: str, args: tuple, lam: tuple | None) -> tuple:
+            if lam is None:
+                return self.impl.render(render_src(name, len(args)), {"x": x, **{f"a{i}": a for i, a in enumerate(args)}})
+            return self.impl.render(lam_src(name, lam[0], lam[1]), {"x": x, "v": value})
+        for name, args, lam in calls:
+            if name == "slice" and isinstance(left, dict):
+                continue
+            if name in ("sort_natural", "sort_numeric", "join") and lam is None and not args and \
+                    any(isinstance(i, (dict, list)) for i in seq_of(left)):
+                continue                  # these order / print hashes and left-over nested arrays by their repr, which names the type
+            base = outcome(left, name, args, lam)
+            for mk, sk in (("mappingproxy", "tuple"), ("chainmap", "userlist"), ("userdict", "sequence"),
+                           ("mapping", "range")):
+                got = outcome(embed(left, mk, sk), name, args, lam)
+                self.expect("hash-is-any-mapping-array-is-any-sequence", same_outcome(base, got),
+                            f"{name} gives a different result on the same data held in a non-dict Mapping / "
+                            f"non-list Sequence ({mk}, {sk})", left=left, filter=name, args=args,
+                            arrow=f"i => i.{lam[0]}" + (" == v" if lam[1] else "") if lam else None, v=value,
+                            plain=base, embedded=got)
+
     def sum_fold_laws(self, xs: list) -> None:
         """sum(xs) is the plus chain over xs (both add the decimals the floats print as), in the
         plain, 'k' and i => i.k forms; the few-digit operands make every partial sum exact."""
@@ -1409,6 +1530,8 @@ FIXED_WITNESSES: list[tuple[str, str, dict, str]] = [
      "a b c|a b..."),                                                                       # C19/0010
     ("truncate-exact-length-ellipsis", "{{ 'abc' | truncate: 3 }}|{{ 'hello' | truncate: 5 }}|{{ 'abcd' | truncate: 3 }}",
      {}, "abc|hello|..."),                                                                  # C19/0011
+    ("first-of-non-dict-mapping", "{{ h | first | join: ':' }}", {"h": MappingProxyType({"title": "x", "p": 1})},
+     "title:x"),                                                                            # C19/0012
     # repaired in /repo by the C02 work (1faa9bc, 0b0af38, 8585e2b, e45da5e)
     ("uniq-index-key-IndexError", "{{ x | uniq: 0 | join: ',' }}", {"x": ["", "ab", "", "ac"]}, ",ab"),
     ("compact-index-key-IndexError", "{{ x | compact: 0 | join: ',' }}", {"x": ["", "ab", "c"]}, "ab,c"),
@@ -1506,6 +1629,8 @@ def main(chk: C.Check, build: C.Build) -> None:
         vals = [v for v in key_vals(seq_of(left), key) if v is not None]
         value = fresh(g.pick(vals)) if vals and r.random() < 0.7 else g.scalar("any")
         laws.guarded(laws.seq_laws, left, key, value)
+        if _ % 4 == 0:
+            laws.guarded(laws.embedding_laws, g.pick([left, g.array("dict"), g.array("hash-any"), [0, 1, 2]]), key, value)
     for _ in range(n_law):
         sep = g.pick([",", ", ", "a", "aa", "ab", "é", " ", "日"])
         parts = [g.ustr(r.choice([0, 1, 2, 3])) for _ in range(r.choice([1, 2, 3, 4]))]
@@ -1556,8 +1681,20 @@ def main(chk: C.Check, build: C.Build) -> None:
     per_filter: Counter = Counter()
     nontrivial: set[str] = set()
     glue_bad = 0
+    # every array-filter case runs on plain dict / list data; a seeded half of those that hold a
+    # hash or an array run a second time with the SAME value embedded as other Python types
+    # (non-dict Mapping, non-list Sequence); the model term is the one of the plain value
+    plan: list[tuple[dict[str, Any], tuple[str, str] | None]] = []
+    p_exotic = 0.5 if not thorough else 0.8
     for c in cases:
+        plan.append((c, None))
+        if c["fam"] == "seq" and c["name"] not in ("split",) and has_containers(c["left"]) and r.random() < p_exotic:
+            plan.append((c, (g.pick(list(MAP_KINDS)), g.pick(SEQ_KINDS))))
+    exotic_cases = 0
+    for c, emb in plan:
         name, left, args, lam = c["name"], c["left"], c["args"], c["lambda"]
+        run_left = embed(left, *emb) if emb else left
+        exotic_cases += emb is not None
         if lam is None:
             model = {"seq": seq_model, "str": str_model, "num": num_model}[c["fam"]](name, left, args)
             if model is None:
@@ -1568,13 +1705,13 @@ def main(chk: C.Check, build: C.Build) -> None:
             except TypeError:
                 skipped[name] += 1
                 continue
-            snapshot = copy.deepcopy((left, args))
-            d = impl.direct(name, left, args)
-            data = {"x": left, **{f"a{i}": a for i, a in enumerate(args)}}
+            snapshot = copy.deepcopy(canon((run_left, args)))
+            d = impl.direct(name, run_left, args)
+            data = {"x": run_left, **{f"a{i}": a for i, a in enumerate(args)}}
             rn = impl.render(render_src(name, len(args)), data)
-            if not same(canon(snapshot), canon((left, args))):
+            if not same(snapshot, canon((run_left, args))):
                 chk.finding("glue:filter-mutated-its-arguments", f"{name} changed its input or arguments",
-                            {"filter": name, "before": snapshot, "after": (left, args)})
+                            {"filter": name, "before": snapshot, "after": (run_left, args)})
             if not same_outcome(to_render(d), rn):
                 glue_bad += 1
                 chk.finding("glue:render-vs-direct-call",
@@ -1582,6 +1719,8 @@ def main(chk: C.Check, build: C.Build) -> None:
                             {"filter": name, "left": left, "args": args, "direct": d, "render": rn})
             o, via = d, False
             replay = {"filter": name, "left": left, "args": args, "implementation": d, "render": rn}
+            if emb:
+                replay["left_embedded_as"] = repr(run_left)[:400]
         else:
             key, wv, value = lam
             items_ = seq_of(left)
@@ -1598,17 +1737,19 @@ def main(chk: C.Check, build: C.Build) -> None:
                 skipped[name] += 1
                 continue
             model = lam_model(name, left, key, wv, value)
-            o = impl.render(lam_src(name, key, wv), {"x": left, "v": value})
+            o = impl.render(lam_src(name, key, wv), {"x": run_left, "v": value})
             via = True
             replay = {"filter": name, "left": left, "lambda": f"i => i.{key}" + (" == v" if wv else ""), "v": value,
                       "implementation": o}
+            if emb:
+                replay["left_embedded_as"] = repr(run_left)[:400]
         if o[0] == "ok" and isinstance(o[1], float) and not math.isfinite(o[1]):
             skipped[name] += 1
             continue
         outcomes[o[0] if o[0] == "ok" else f"{o[0]}:{o[1]}"] += 1
-        per_filter[name + ("/lambda" if lam else "")] += 1
+        per_filter[name + ("/lambda" if lam else "") + ("/embedded" if emb else "")] += 1
         if o[0] == "ok" and (len(seq_of(left)) >= 2 if c["fam"] == "seq" else True):
-            nontrivial.add(repr((name, left, args, lam)))
+            nontrivial.add(repr((name, left, args, lam, emb)))
         items.append({"case": c_case(model, o, via), "model": model, "replay": replay})
 
     correspond_robust(chk, items)
@@ -1629,6 +1770,7 @@ def main(chk: C.Check, build: C.Build) -> None:
         "implementation_outcomes": dict(outcomes),
         "skipped_outside_model_domain": dict(skipped),
         "render_vs_direct_disagreements": glue_bad,
+        "cases_with_non_dict_mapping_or_non_list_sequence": exotic_cases,
         "law_checks": dict(sorted(laws.checked.items())),
         "law_failures": len(laws.fail),
         "implementation_calls": impl.calls,
